@@ -11,6 +11,12 @@ Fixpoint reqs_eqb (a b : list (list ack)) : bool := match a, b with [], [] => tr
 Definition fate_code (f : fate) : nat := match f with Republished => 0 | Recreated _ => 1 | Lost => 2 | Untouched => 3 end.
 Definition chk_acks (h : list publish_resp) (obs : list (list ack)) : bool := reqs_eqb (requests [] h) obs.
 Fixpoint nats_eqb (a b : list nat) : bool := match a, b with [], [] => true | x :: a', y :: b' => (x =? y) && nats_eqb a' b' | _, _ => false end.
+Definition nth_acks (n : nat) (l : list (list ack)) : list ack := nth n l [].
+(* the acknowledgement lists of the requests the server sees in a mixed-outcome reconnect: the very first request, the
+   one after the data notification, and the first one after the reconnect (= after the last event) *)
+Definition chk_mixed (h : list event) (obs : list (list ack)) : bool :=
+  let rq := ev_requests [] h in
+  reqs_eqb obs (nth_acks 0 rq :: nth_acks 1 rq :: map (fun _ => last rq []) (tl (tl obs))).
 Definition chk_items (p : path) (e : sub_env) (groups reqs : list nat) : bool :=
   nats_eqb (fst (rounds_items (List.length reqs) p e groups)) reqs.
 Definition chk_reconnect (p : path) (e : sub_env) (alive recreated resumed : bool) : bool :=
@@ -30,7 +36,7 @@ def acks_term(al):
 
 
 def run(ctx):
-    n = 90 if ctx.thorough() else 23
+    n = 96 if ctx.thorough() else 29
     proof_ok, detail = True, {}
     r = ctx.props()
     if not r["ok"]:
@@ -67,7 +73,7 @@ def run(ctx):
                                    "how": "work/bin/clientharness c26 -replay <this file>: scripted server; kind acks = publish history in case.l (5 ints per response), kind reconnect = scripted ActivateSession/Transfer/Republish/CreateSubscription/CreateMonitoredItems outcomes in case.p"}):
             new += 1
 
-    lines_a, obs_a, lines_r, obs_r = [], [], [], []
+    lines_a, obs_a, lines_r, obs_r, lines_m, obs_m = [], [], [], [], [], []
     for o in obs:
         c = o["case"]
         if o.get("acks") is None or (o.get("err") or "").strip():
@@ -105,6 +111,27 @@ def run(ctx):
             for a, cnt in acked.items():
                 if cnt > 1:
                     report("acknowledged-twice", "notification %s was acknowledged (status OK) %d times" % (a, cnt), o)
+        elif c["p"].get("mixed") == 1:
+            p = c["p"]
+            acks = o["acks"]
+            ev = ["EPublish {| pr_sub := 1; pr_known := true; pr_seq := 1; pr_data := true; pr_results := [] |}"]
+            if p.get("republish_msgs") == 1 and not (p["tinvalid"] & 1):
+                ev.append("ERepublish 1 2")
+            for sid in range(1, p["nsubs"] + 1):
+                if p["tinvalid"] & (1 << (sid - 1)):
+                    ev.append("ERecreate %d" % sid)
+            lines_m.append("([%s], [%s])" % (";".join(ev), ";".join(acks_term(a) for a in acks)))
+            obs_m.append(o)
+            connected = bool(o["states"]) and o["states"][-1] == 1
+            if not connected or len(acks) < 3:
+                report("reconnect-failed", "mixed-outcome reconnect did not complete: states %s, %d publish requests" % (o["states"], len(acks)), o)
+                continue
+            # the property itself: what the application received and the server has not acknowledged yet is in the
+            # first PublishRequest after the reconnect
+            want = [[1, 1]] + ([[1, 2]] if o.get("republished", 0) > 0 else [])
+            missing = [a for a in want if a not in acks[2]]
+            if missing:
+                report("queued-acks-lost-in-reconnect", "notifications %s were delivered to the application and queued for acknowledgement before/during the reconnect but are missing from the first PublishRequest after it (%s); subscriptions recreated: tinvalid=%d" % (missing, acks[2], p["tinvalid"]), o)
         else:
             p = c["p"]
             connected = bool(o["states"]) and o["states"][-1] == 1
@@ -155,6 +182,11 @@ def run(ctx):
             corr_ok = False
             detail["cases_reconnect"] = clog
         mism += [obs_r[i] for i in idx]
+        okc, idx, clog = ctx.eval_cases(IMPORTS, "list event * list (list ack)", lines_m, "  chk_mixed (fst c) (snd c)", name="CasesM")
+        if not okc:
+            corr_ok = False
+            detail["cases_mixed"] = clog
+        mism += [obs_m[i] for i in idx]
         if mism:
             corr_ok = False
             detail["model_vs_impl_mismatches"] = mism[:10]
@@ -167,10 +199,10 @@ def run(ctx):
     ctx.coverage.update({
         "evaluations": len(obs),
         "distinct_nontrivial": len({json.dumps([o["case"].get("l"), o["case"].get("p")]) for o in obs}),
-        "rule": "two of three cases: publish histories of 2..7 responses over subscriptions {1, 2, unknown 77}, data or keep-alive, per-acknowledgement statuses {OK, SubscriptionIDInvalid, SequenceNumberUnknown, other}, 1/8 with a result count off by one; one of three: reconnect scenarios over {session kept/lost} x {transfer unsupported/ok/invalid} x {republish ok/fails, with or without a retransmitted message} x {CreateSubscription ok/fails} x {CreateMonitoredItems ok/fails} x {1..3 TimestampsToReturn groups of items} x {1, 2 consecutive reconnects}; plus the three known-finding scenarios; distinct = distinct histories / scenarios",
+        "rule": "two of three cases: publish histories of 2..7 responses over subscriptions {1, 2, unknown 77}, data or keep-alive, per-acknowledgement statuses {OK, SubscriptionIDInvalid, SequenceNumberUnknown, other}, 1/8 with a result count off by one; one of three: reconnect scenarios over {session kept/lost} x {transfer unsupported/ok/invalid} x {republish ok/fails, with or without a retransmitted message} x {CreateSubscription ok/fails} x {CreateMonitoredItems ok/fails} x {1..3 TimestampsToReturn groups of items} x {1, 2 consecutive reconnects}; plus 6 mixed-outcome reconnects over 2..3 subscriptions (subscription 1 with a queued un-acknowledged notification survives, others are recreated; the acknowledgements of every PublishRequest are compared with the model) and the known-finding scenarios; distinct = distinct histories / scenarios",
         "samples": [{k: o.get(k) for k in ("case", "acks", "states", "subs", "pubs_after")} for o in obs[:4] + obs[-2:]],
-        "ack_histories": len(lines_a), "reconnect_scenarios": len(lines_r),
-        "traces_validated_against_impl": len(lines_a) + len(lines_r),
+        "ack_histories": len(lines_a), "reconnect_scenarios": len(lines_r), "mixed_outcome_reconnects": len(lines_m),
+        "traces_validated_against_impl": len(lines_a) + len(lines_r) + len(lines_m),
         "model_impl_mismatches": len(mism),
     })
     ctx.assumptions += [
